@@ -7,6 +7,7 @@ truncated operand, and ends in a return), with the opcode numbering regenerated 
 Applied to the real output of generated programs over the option matrix; libgraphite2 must also accept each font.
 """
 import collections
+import random
 import os
 import shutil
 
@@ -101,10 +102,24 @@ def run(tier, seed, replay=None):
     rich["g_two_missing_in_context"] = H + 'table(glyph) cX = (unicode(0x4E00), unicode(0x4E01), codepoint("a")); cA = glyphid(3..6); cB = glyphid(7..10); endtable;\ntable(sub) cA > cB / cX _; endtable;\n'
     rich["g_missing_in_subst"] = H + "table(glyph) cA = unicode(0x61, 0x1234, 0x62); cB = glyphid(7..9); endtable;\ntable(sub) cA > cB; endtable;\n"
     rfont = _ttf.simple_font(40, post_names=[".notdef"] + ["g%d" % i for i in range(1, 40)])[0]
+    # octabox records with sub-boxes (Glat 3: bitmap + one 8-byte record per occupied cell, then the attribute runs): fonts
+    # with polygons, L shapes, two-contour and composite glyphs, a random subset marked collision.complexFit
+    import importlib.util as _ilu
+    _spec = _ilu.spec_from_file_location("c20_fonts", os.path.join(os.path.dirname(os.path.abspath(__file__)), "c20.py"))
+    _c20 = _ilu.module_from_spec(_spec)
+    _spec.loader.exec_module(_c20)
+    rich_fonts = {}
+    for k in range(2 if tier == "quick" else 10):
+        frng = random.Random(seed * 131 + k)
+        rich_fonts["collide_complexfit_%d" % k] = _c20.gen_font(frng, 30)[0]
+        cx = sorted(frng.sample(range(2, 30), frng.randint(6, 20)))
+        rich["collide_complexfit_%d" % k] = (H + "table(glyph) cA = glyphid(%s) {collision.complexFit = 1; collision.flags = 1}; cB = glyphid(%s) {collision.margin = 10m}; endtable;\n"
+                                             "table(sub) cA > cA {user1 = 1}; endtable;\ntable(pos) pass(1) {CollisionFix = %d} cA {collision.flags = 3} cB; endpass; endtable;\n"
+                                             % (", ".join(map(str, cx)), ", ".join(str(g) for g in range(2, 30) if g not in cx), frng.choice([1, 2, 3])))
     for rname in sorted(rich):
         prog = gen.Prog()
         prog.nglyphs = 40
-        prog.font = rfont
+        prog.font = rich_fonts.get(rname, rfont)
         prog.raw_gdl = rich[rname]
         for oi, opts in enumerate(OPTS_QUICK if tier == "thorough" else [[], ["-v5", "-c"], ["-v3", "-p"], ["-offsets"], ["-v2"]]):
             nm = "rich_%s_o%d" % (rname, oi)
